@@ -248,7 +248,12 @@ func lineDiff(want, got []string) string {
 }
 
 // classify assigns a known-finding key by a predicate on the case (never "any failure").
+const apostropheKey = "string-default-delimited-by-apostrophes-is-taken-for-a-quoted-literal"
+
 func classify(A, B *squ.DB, res Result) string {
+	if (A.HasColumn("t", "q") || B.HasColumn("t", "q")) && squ.OnlyAboutColumn(res.Problems, "q") {
+		return apostropheKey
+	}
 	if res.ViewCase && res.Rebuild {
 		all := true
 		for _, p := range res.Problems {
